@@ -513,6 +513,10 @@ func (s Subtitles) WriteToWebVTT(o io.Writer) (err error) {
 	sort.Strings(k)
 	for _, id := range k {
 		c = append(c, []byte("Region: id="+s.Regions[id].ID)...)
+		if s.Regions[id].InlineStyle == nil {
+			c = append(c, bytesLineSeparator...)
+			continue
+		}
 		if s.Regions[id].InlineStyle.WebVTTLines != 0 {
 			c = append(c, bytesSpace...)
 			c = append(c, []byte("lines="+strconv.Itoa(s.Regions[id].InlineStyle.WebVTTLines))...)
